@@ -195,6 +195,9 @@ def check(case, ctx):
     import graphtage.json as gj
     T = monitors.TRACER
     T.reset()
+    # the call budget scales with the documents: it stands for "does not terminate", not for "is large"
+    T.EVENT_BUDGET = max(2_000_000, 3000 * (gen.size(case.get("a", 0)) + 1) * (gen.size(case.get("b", 0)) + 1)) \
+        if not case.get("direct") else 2_000_000
     monitors.TRAP.reset()
     before_true = sum(v for k, v in T.events.items() if k.endswith(":True") and not k.startswith("Constant"))
     diags = []
